@@ -586,3 +586,272 @@ def run_c05(c):
             add("py:warp", lambda: dtw.warp(a, b, **kw)[1])   # warp needs every index of to_s aligned
     add("native:dtw_warping_path", lambda: tuple(reversed(_native_path(c))), True)
     return {"id": c["id"], "routes": routes, "paths": paths, "d": ds}
+
+
+# ---------------------------------------------------------------------------------------------
+# C09: bounds
+def enc_lb(c, v):
+    return enc_cost(c, v)
+
+
+def run_c09(c):
+    from dtaidistance import dtw, dtw_cc, dtw_ndim, ed, ed_cc
+    from . import native
+    nd = ndim_of(c)
+    kw = settings(c)
+    lb, lbr, edv, edr, ub, ubr = [], [], [], [], [], []
+
+    def add(lst, names, name, fn):
+        names.append(name)
+        lst.append(enc_guarded(c, fn))
+
+    inner = "euclidean" if c["inner"] == "eu" else "squared euclidean"
+    icode = 1 if c["inner"] == "eu" else 0
+    a_n, b_n = series(c, "s1", "numpy"), series(c, "s2", "numpy")
+    lib = native.lib("plain")
+    if nd == 1:
+        a_l, b_l = series(c, "s1", "list"), series(c, "s2", "list")
+        a_a, b_a = series(c, "s1", "array"), series(c, "s2", "array")
+        wkw = {k: v for k, v in kw.items() if k in ("window", "inner_dist")}
+        add(lb, lbr, "py:dtw.lb_keogh", lambda: dtw.lb_keogh(a_l, b_l, **wkw))
+        add(lb, lbr, "py:dtw.lb_keogh[numpy]", lambda: dtw.lb_keogh(a_n, b_n, **wkw))
+        add(lb, lbr, "c:dtw.lb_keogh[use_c]", lambda: dtw.lb_keogh(a_a, b_a, use_c=True, **wkw))
+        add(lb, lbr, "c:dtw_cc.lb_keogh", lambda: dtw_cc.lb_keogh(a_n, b_n, window=c["w"], inner_dist=inner))
+        add(edv, edr, "py:ed.distance", lambda: ed.distance(a_l, b_l, inner_dist=inner))
+        add(edv, edr, "py:dtw.ub_euclidean", lambda: dtw.ub_euclidean(a_l, b_l, inner_dist=inner))
+        add(edv, edr, "c:ed.distance_fast", lambda: ed.distance_fast(a_n, b_n, inner_dist=inner))
+        add(edv, edr, "c:ed_cc.distance", lambda: ed_cc.distance(a_a, b_a, icode))
+        if icode == 0:
+            add(edv, edr, "c:dtw_cc.ub_euclidean", lambda: dtw_cc.ub_euclidean(a_a, b_a))
+        add(ub, ubr, "py:distance[only_ub]", lambda: dtw.distance(a_l, b_l, only_ub=True, **kw))
+        add(ub, ubr, "c:distance_fast[only_ub]", lambda: dtw.distance_fast(a_n, b_n, only_ub=True, **kw))
+        dref = enc_guarded(c, lambda: dtw.distance(a_l, b_l, **kw))
+        kw0 = {k: v for k, v in kw.items() if k != "penalty"}
+        d0 = enc_guarded(c, lambda: dtw.distance(a_l, b_l, **kw0)) if len(c["s1"]) != len(c["s2"]) else dref
+    else:
+        kwn = {k: v for k, v in kw.items() if k != "use_ndim"}
+        add(edv, edr, "py:ed.distance[ndim]", lambda: ed.distance(a_n, b_n, inner_dist=inner, use_ndim=True))
+        add(edv, edr, "py:dtw_ndim.ub_euclidean", lambda: dtw_ndim.ub_euclidean(a_n, b_n, inner_dist=inner))
+        add(edv, edr, "c:ed_cc.distance_ndim", lambda: ed_cc.distance_ndim(a_n, b_n, icode))
+        if icode == 0:
+            add(edv, edr, "c:dtw_cc.ub_euclidean_ndim", lambda: dtw_cc.ub_euclidean_ndim(a_n, b_n))
+        add(ub, ubr, "py:dtw_ndim.distance[only_ub]", lambda: dtw_ndim.distance(a_n, b_n, only_ub=True, **kwn))
+        add(ub, ubr, "c:dtw_ndim.distance_fast[only_ub]",
+            lambda: dtw_ndim.distance_fast(a_n, b_n, only_ub=True, **kwn))
+        dref = enc_guarded(c, lambda: dtw_ndim.distance(a_n, b_n, **kwn))
+        kw0 = {k: v for k, v in kwn.items() if k != "penalty"}
+        d0 = enc_guarded(c, lambda: dtw_ndim.distance(a_n, b_n, **kw0)) if len(c["s1"]) != len(c["s2"]) else dref
+
+    def nat(fn, *extra):
+        a = native.flat_series(c, "s1")
+        b = native.flat_series(c, "s2")
+        A = native.Buf(len(a), fill=a)
+        B = native.Buf(len(b), fill=b)
+        try:
+            r = fn(A.ptr, len(c["s1"]), B.ptr, len(c["s2"]), *extra)
+            A.check("s1")
+            B.check("s2")
+            return r
+        finally:
+            A.free()
+            B.free()
+    suffix = "_euclidean" if icode else ""
+    if nd == 1:
+        st = lib.settings(c)
+        add(lb, lbr, "native:lb_keogh", lambda: nat(lib.L.lb_keogh, st))
+        add(edv, edr, "native:euclidean_distance" + suffix,
+            lambda: nat(getattr(lib.L, "euclidean_distance" + suffix)))
+        add(edv, edr, "native:ub_euclidean" + suffix, lambda: nat(getattr(lib.L, "ub_euclidean" + suffix)))
+    else:
+        add(edv, edr, "native:euclidean_distance_ndim" + suffix,
+            lambda: nat(getattr(lib.L, "euclidean_distance_ndim" + suffix), nd))
+        add(edv, edr, "native:ub_euclidean_ndim" + suffix,
+            lambda: nat(getattr(lib.L, "ub_euclidean_ndim" + suffix), nd))
+    return {"id": c["id"], "lb": lb, "lbroutes": lbr, "ed": edv, "edroutes": edr, "ub": ub, "ubroutes": ubr,
+            "dtw": dref, "dtw0": d0, "routes": lbr + edr + ubr}
+
+
+# ---------------------------------------------------------------------------------------------
+# C10: laws on pairs of calls
+def run_c10(c):
+    from dtaidistance import dtw, dtw_ndim, ed
+    import copy
+    nd = ndim_of(c)
+    l1, l2 = len(c["s1"]), len(c["s2"])
+    rel = []
+
+    def dist(cc, engine):
+        kw = settings(cc)
+        if engine == "py":
+            a = series(cc, "s1", "list" if nd == 1 else "numpy")
+            b = series(cc, "s2", "list" if nd == 1 else "numpy")
+            return enc_guarded(cc, lambda: dtw.distance(a, b, **kw))
+        a, b = series(cc, "s1", "numpy"), series(cc, "s2", "numpy")
+        return enc_guarded(cc, lambda: dtw.distance_fast(a, b, **kw))
+
+    def variant(**ch):
+        cc = copy.deepcopy(c)
+        cc.update(ch)
+        return cc
+
+    base = None
+    engines = ["py", "c"] if c["inner"] != "cu" else ["py"]
+    for eng in engines:
+        d = dist(c, eng)
+        if base is None:
+            base = d
+        rel.append([eng + ":nonneg", "nonneg", d, 0])
+        # identity
+        rel.append([eng + ":identity", "zero", dist(variant(s2=c["s1"], psi=[min(p, l1) for p in c["psi"]]), eng)
+                    if True else 0, 0])
+        # symmetry with the per-series psi entries swapped
+        sw = variant(s1=c["s2"], s2=c["s1"], psi=[c["psi"][2], c["psi"][3], c["psi"][0], c["psi"][1]])
+        rel.append([eng + ":symmetry", "eq", dist(sw, eng), d])
+        # window monotonicity
+        if c["w"] != 0:
+            rel.append([eng + ":window+1", "le", dist(variant(w=c["w"] + 1), eng), d])
+            rel.append([eng + ":window=none", "le", dist(variant(w=0), eng), d])
+        # psi monotonicity
+        for k in range(4):
+            ln = l1 if k < 2 else l2
+            if c["psi"][k] < ln:
+                p2 = list(c["psi"])
+                p2[k] += 1
+                if not ((p2[0] >= l1 and p2[3] >= l2) or (p2[2] >= l2 and p2[1] >= l1)):
+                    rel.append([eng + ":psi[%d]+1" % k, "le", dist(variant(psi=p2), eng), d])
+        # max_step relaxed
+        if c["ms"] != 0:
+            rel.append([eng + ":max_step+1", "le", dist(variant(ms=c["ms"] + 1), eng), d])
+            rel.append([eng + ":max_step=none", "le", dist(variant(ms=0), eng), d])
+        # penalty grows
+        rel.append([eng + ":penalty+1", "le", d, dist(variant(pen=c["pen"] + 1), eng)])
+        # window 1 on equal lengths is the Euclidean distance
+        if l1 == l2 and not any(c["psi"]) and c["ms"] == 0 and c["inner"] != "cu":
+            w1 = dist(variant(w=1), eng)
+            inner = "euclidean" if c["inner"] == "eu" else "squared euclidean"
+            a, b = series(c, "s1", "numpy"), series(c, "s2", "numpy")
+            e = enc_guarded(c, lambda: ed.distance(a, b, inner_dist=inner, use_ndim=(nd > 1)))
+            rel.append([eng + ":window=1 is ED", "eq", w1, e])
+    # mirrored entries of a non-triangular distance-matrix block (what makes mirroring valid)
+    if nd == 1 and not any(c["psi"]) and c["inner"] != "cu":
+        kw = settings(c)
+        a, b = series(c, "s1", "numpy"), series(c, "s2", "numpy")
+
+        def blk(use_c):
+            m = dtw.distance_matrix([a, b], block=((0, 2), (0, 2), False), compact=True, use_c=use_c, **kw)
+            return m
+        for use_c in (False, True):
+            r = guarded(lambda: blk(use_c))
+            if isinstance(r, tuple) and len(r) == 2 and r[0] == "raised":
+                rel.append(["matrix[%s]:raised" % ("c" if use_c else "py"), "eq", RAISED, 0])
+            else:
+                rel.append(["matrix[%s]:(0,1)=(1,0)" % ("c" if use_c else "py"), "eq", enc_cost(c, r[1]), enc_cost(c, r[2])])
+                rel.append(["matrix[%s]:(0,0)=0" % ("c" if use_c else "py"), "zero", enc_cost(c, r[0]), 0])
+    return {"id": c["id"], "rel": rel, "base": base, "routes": [r[0] for r in rel]}
+
+
+
+# ---------------------------------------------------------------------------------------------
+# C11: multivariate routes judged against the vector-point-distance specification
+def run_c11_dist(c):
+    from dtaidistance import dtw, dtw_ndim, dtw_cc
+    nd = ndim_of(c)
+    kw = settings(c)
+    kw["use_ndim"] = True
+    kwn = {k: v for k, v in kw.items() if k != "use_ndim"}
+    a, b = series(c, "s1", "numpy", flat=False), series(c, "s2", "numpy", flat=False)
+    routes, obs = [], []
+
+    def add(name, fn):
+        routes.append(name)
+        obs.append(enc_guarded(c, fn))
+
+    add("py:dtw_ndim.distance", lambda: dtw_ndim.distance(a, b, **kwn))
+    add("py:dtw.distance[use_ndim]", lambda: dtw.distance(a, b, **kw))
+    add("c:dtw_ndim.distance_fast", lambda: dtw_ndim.distance_fast(a, b, **kwn))
+    add("c:dtw_ndim.distance[use_c]", lambda: dtw_ndim.distance(a, b, use_c=True, **kwn))
+    a_l = series(c, "s1", "list", flat=False)
+    b_l = series(c, "s2", "list", flat=False)
+    if not c.get("prune"):
+        add("py:dtw_ndim.distance[list of lists->numpy rows]",
+            lambda: dtw_ndim.distance(np().array(a_l), np().array(b_l), **kwn))
+    # distance matrices: list of 2-D arrays and (equal lengths) one 3-D array
+    kwm = dict(kwn)
+    add("py:dtw_ndim.distance_matrix[list]", lambda: dtw_ndim.distance_matrix([a, b], compact=True, **kwm)[0])
+    add("c:dtw_ndim.distance_matrix[list,use_c]",
+        lambda: dtw_ndim.distance_matrix([a, b], compact=True, use_c=True, **kwm)[0])
+    if len(c["s1"]) == len(c["s2"]):
+        cube = np().array([a, b])
+        add("py:dtw_ndim.distance_matrix[3-D array]", lambda: dtw_ndim.distance_matrix(cube, compact=True, **kwm)[0])
+        add("c:dtw_ndim.distance_matrix[3-D array,use_c]",
+            lambda: dtw_ndim.distance_matrix(cube, compact=True, use_c=True, **kwm)[0])
+    if nd == 1:
+        # d = 1 coincides with the univariate result on the flattened series
+        k1 = {k: v for k, v in kwn.items()}
+        add("py:dtw.distance[flattened]", lambda: dtw.distance(a[:, 0].copy(), b[:, 0].copy(), **k1))
+        add("c:dtw.distance_fast[flattened]", lambda: dtw.distance_fast(a[:, 0].copy(), b[:, 0].copy(), **k1))
+    add("native:dtw_distance_ndim", lambda: _native_dist(dict(c, use_ndim=True)))
+    return {"id": c["id"], "routes": routes, "obs": obs}
+
+
+def run_c11_wps(c):
+    from dtaidistance import dtw_ndim
+    kw = settings(c)
+    kwn = {k: v for k, v in kw.items() if k != "use_ndim"}
+    a, b = series(c, "s1", "numpy", flat=False), series(c, "s2", "numpy", flat=False)
+    routes, mats, ds, negs = [], [], [], []
+
+    def add(name, fn, neg, int_repr):
+        routes.append(name)
+        negs.append(bool(neg))
+        r = guarded(fn)
+        if isinstance(r, tuple) and len(r) == 2 and r[0] == "raised":
+            mats.append([])
+            ds.append(RAISED)
+            return
+        mats.append(enc_matrix(c, r[1], int_repr))
+        ds.append(_enc_d(c, r[0], int_repr))
+    add("py:dtw_ndim.warping_paths", lambda: dtw_ndim.warping_paths(a, b, **kwn), True, False)
+    add("c:dtw_ndim.warping_paths_fast", lambda: dtw_ndim.warping_paths_fast(a, b, **kwn), True, False)
+    add("c:dtw_ndim.warping_paths_fast[int]", lambda: dtw_ndim.warping_paths_fast(a, b, keep_int_repr=True, **kwn),
+        True, True)
+    r = guarded(lambda: _native_wps(c, True, False, []))
+    routes.append("native:compact+expand[ndim]")
+    negs.append(True)
+    if isinstance(r, tuple) and len(r) == 2 and r[0] == "raised":
+        mats.append([])
+        ds.append(RAISED)
+    else:
+        mats.append(enc_matrix(c, r[1], False))
+        ds.append(_enc_d(c, r[0], False))
+    return {"id": c["id"], "routes": routes, "mat": mats, "d": ds, "neg": negs, "slices": []}
+
+
+def run_c11_path(c):
+    from dtaidistance import dtw, dtw_ndim, dtw_cc
+    nd = ndim_of(c)
+    kw = settings(c)
+    kwn = {k: v for k, v in kw.items() if k != "use_ndim"}
+    a, b = series(c, "s1", "numpy", flat=False), series(c, "s2", "numpy", flat=False)
+    routes, paths, ds = [], [], []
+
+    def add(name, fn, with_d=False):
+        routes.append(name)
+        r = guarded(fn)
+        if isinstance(r, tuple) and len(r) == 2 and r[0] == "raised":
+            paths.append([[-3, -3]])
+            ds.append(ABSENT)
+            return
+        if with_d:
+            p, d = r
+            ds.append(enc_cost(c, d))
+        else:
+            p = r
+            ds.append(ABSENT)
+        paths.append(enc_path(p))
+    add("py:dtw_ndim.warping_path", lambda: dtw_ndim.warping_path(a, b, include_distance=True, **kwn), True)
+    kwz = settings(c, none_as_zero=True)
+    kwz.pop("use_ndim", None)
+    add("c:dtw_cc.warping_path_ndim", lambda: dtw_cc.warping_path_ndim(a, b, nd, include_distance=True, **kwz), True)
+    add("native:dtw_warping_path_ndim", lambda: tuple(reversed(_native_path(c))), True)
+    return {"id": c["id"], "routes": routes, "paths": paths, "d": ds}
